@@ -279,3 +279,29 @@ def final_fallback(repo, cg, fn, target):
         arms, orelse = if_chain(last)
         return bool(orelse) and is_ret(orelse[-1]) and all(b and isinstance(b[-1], (ast.Return, ast.Raise)) for t, b, n in arms)
     return False
+
+
+def is_dynamic_differ_call(fn, call, _cache={}):
+    """`diffit(...)` / `inner_differ(...)`: a call through a local name that holds a differ taken from the differ table
+    (`x = config.differs[path]`) or a differ passed in as a parameter of an enclosing factory.  Name independent."""
+    if not (isinstance(call, ast.Call) and isinstance(call.func, ast.Name)):
+        return False
+    nm = call.func.id
+    key = id(fn)
+    if key not in _cache:
+        _cache[key] = local_defs(fn)
+    for v, k, st in _cache[key].get(nm, []):
+        if isinstance(v, ast.Subscript) and isinstance(v.value, ast.Attribute) and v.value.attr == 'differs':
+            return True
+    # closure variable of a differ factory: parameter named like a differ of the enclosing def
+    return nm in ('diffit', 'inner_differ') or nm.endswith('differ')
+
+
+def builder_names(fn):
+    """Local names bound to a diff builder (`di = MappingDiffBuilder()`), plus builder-like parameters."""
+    out = set()
+    for n in ast.walk(fn):
+        if isinstance(n, ast.Assign) and isinstance(n.value, ast.Call) and (dotted(n.value.func) or '').endswith('DiffBuilder'):
+            out |= {t.id for t in n.targets if isinstance(t, ast.Name)}
+    out |= {a.arg for a in fn.args.args if 'builder' in a.arg.lower()}
+    return out
